@@ -47,6 +47,22 @@ Fixpoint ins_prio (x : ent) (l : list ent) : list ent :=
   end.
 Definition psort (l : list ent) : list ent := fold_right ins_prio [] l.
 
+(* ---- the dontstart latch as a function of the log (specification side) ---- *)
+Fixpoint dont_after (d : list N) (evs : list ev) : list N :=
+  match evs with
+  | [] => d
+  | EStart it _ false :: r => dont_after (it :: d) r
+  | _ :: r => dont_after d r
+  end.
+(* no StartContainer(it, _) once a StartContainer(it, _) has failed *)
+Fixpoint latch_b (d : list N) (evs : list ev) : bool :=
+  match evs with
+  | [] => true
+  | EStart it _ r :: rest => negb (memN it d) && latch_b (if r then d else it :: d) rest
+  | _ :: rest => latch_b d rest
+  end.
+
+
 Section RQ.
 (* the worker pool as seen by one runQueue pass *)
 Variable P : Type.
